@@ -29,6 +29,24 @@ loop(F_LSM, "LSMTree.recover_from_crash", 1,
           ("log-untouched", lambda L: mk_bool(L.self._wal._entries.term == L.old(L.self._wal)._entries.term)
               & mk_bool(L.seq.term == L.self._wal._entries.term))])
 
+# ---------------------------------------------------------------------------- ghost statements (Part C)
+# g_ret (log): sequence number the last append handed back; g_inflight (tree): sequence numbers appended to the
+# log whose write has not been applied to a memtable yet (appends do NOT return in sequence order - see the
+# bounded stand-in - so "highest applied" would not do); seal bound: the largest b with every issued sequence
+# <= b applied (b = min(g_inflight + {next_sequence}) - 1); g_installed_bound (tree): highest seal bound of a
+# memtable whose SSTable is installed; g_flushed_upto (log): every write with a sequence number <= it is contained
+# in an installed SSTable (DESIGN 3-C15 `flushed_upto`) - advanced when no sealed memtable is still waiting.
+ghost(F_WAL, "WriteAheadLog.append", "return seq", "self.g_ret = seq", where="before")
+ghost(F_WAL, "WriteAheadLog.append_sync", "return seq", "self.g_ret = seq", where="before")
+for _m in ("put", "delete"):
+    ghost(F_LSM, "LSMTree." + _m, "yield from self._wal.append(", "_c15_begin(self)", where="before")
+ghost(F_LSM, "LSMTree.put_sync", "self._wal.append_sync(", "_c15_begin(self)", where="before")
+for _m in ("put", "put_sync", "delete"):
+    ghost(F_LSM, "LSMTree." + _m, "self._total_wal_writes += 1", "_c15_applied(self)")
+ghost(F_LSM, "LSMTree._flush_memtable", "self._immutable_memtables.append(old_memtable)", "_c15_sealed = _c15_seal_bound(self)")
+ghost(F_LSM, "LSMTree._flush_memtable", "self._immutable_memtables.remove(old_memtable)", "_c15_installed(self, _c15_sealed)")
+ghost(F_LSM, "LSMTree._flush_memtable_sync", "self._levels[0].append(sstable)", "_c15_installed(self, _c15_seal_bound(self))")
+
 from specs.common import *  # noqa: E402,F401
 
 from happysimulator.components.storage.wal import (SyncPolicy, SyncEveryWrite, SyncPeriodic, SyncOnBatch,  # noqa: E402
@@ -51,6 +69,33 @@ PROPERTY = {
                 "elements satisfying p; pyvc/rt.py sorted(): a stable sort of an already ordered sequence is "
                 "that sequence"],
     "assumptions": COMMON_ASSUMPTIONS + [
+        "crash model: crash() / recover_from_crash() are called between runs (the crash point is the end of a run at "
+        "an arbitrary event boundary); a process suspended at the crash point is not resumed afterwards, so within "
+        "a run no log entry disappears except by truncate",
+        "in-order SYNC completion (rely of WriteAheadLog.append and LSMTree.put/delete): while an append is waiting, no "
+        "append with a larger sequence number completes its sync - the latencies of one log are constants and the "
+        "scheduler is time-ordered with FIFO ties (C01); supported natively by the bounded stand-in "
+        "in-order-completion-native. Without it `synced-never-goes-back` is refuted at the exit of append "
+        "(`self._synced_up_to_sequence = seq` can lower the mark). Appends do NOT return in sequence order (an "
+        "append that does not sync overtakes earlier ones that do) - nothing here assumes that",
+        "Entity._clock is typed nullable in this spec; the functions that read the time require attachment "
+        "(WriteAheadLog.append, LSMTree.put/delete: clock of tree and log not None)",
+        "the log is written only through its LSMTree (every sequence number is issued by LSMTree.put/delete/put_sync): "
+        "ghost g_inflight holds exactly the issued-but-not-yet-applied sequence numbers; rely clauses of "
+        "_flush_memtable / put: only the issuing process removes its number from g_inflight, numbers enter it only "
+        "when issued, only the flush that sealed a memtable takes it off _immutable_memtables",
+        "configuration: max_levels >= 1 (precondition/rely `level-0-exists` of the flush functions)",
+        "assumed contracts of callees outside this property (C14 owns them): Memtable.flush returns an SSTable and "
+        "empties the memtable; SSTable.key_count/size_bytes are non-negative ints; CompactionStrategy.should_compact "
+        "is pure; LSMTree._compact/_compact_sync write only _levels/_total_compactions/_sstable_bytes_written; "
+        "LSMTree._flush_memtable(_sync) as used by put/delete/put_sync writes only the fields in FLUSH_MODS and keeps "
+        "the log/tree invariants (those are proved for the real functions in this file)",
+        "recover_from_crash: `sum(s.key_count for level in self._levels for s in level)` is replaced by an arbitrary "
+        "integer (nested iteration over lists of symbolic length; the total only feeds the returned statistics)",
+        "lemmas: LAST (index of the latest entry for a key in a log prefix) is characterised by induction on the "
+        "prefix length; lemma last-is-latest-entry-for-key proves base and step, the lemmas that use the "
+        "characterisation assume it; they restate the proved contracts over an index-based model of the logs",
+        "opaque values (Any): only equality is observable; the tombstone is one such value",
     ],
 }
 
@@ -118,13 +163,15 @@ cls(WriteAheadLog,
             "_entries": WLOG, "_next_sequence": Int, "_writes_since_sync": Int, "_last_sync_time_s": Real,
             "_synced_up_to_sequence": Int, "_total_writes": Int, "_total_bytes": Int, "_total_syncs": Int,
             "_total_sync_latency_s": Real, "_entries_recovered": Int},
+    ghost={"g_ret": Int, "g_flushed_upto": Int},
     const=["_sync_policy", "_disk", "_write_latency", "_sync_latency"],
     inv=[("next-positive", lambda o: o._next_sequence >= 1),
          ("synced-is-an-issued-sequence", lambda o: (0 <= o._synced_up_to_sequence) & (o._synced_up_to_sequence < o._next_sequence)),
          ("sequences-strictly-increasing", lambda o: seqs_increasing(o._entries)),
          ("sequences-issued", lambda o: seqs_between(o._entries, 1, o._next_sequence))],
     guarantee=[("synced-never-goes-back", lambda old, new: new._synced_up_to_sequence >= old._synced_up_to_sequence),
-               ("sequence-numbers-never-reused", lambda old, new: new._next_sequence >= old._next_sequence)])
+               ("sequence-numbers-never-reused", lambda old, new: new._next_sequence >= old._next_sequence),
+               ("flushed-mark-never-goes-back", lambda old, new: new.g_flushed_upto >= old.g_flushed_upto)])
 
 # (WriteAheadLog.__init__ is not under contract: Entity.__init__ stores None in `_clock`, which specs/common.py
 #  types as a non-null reference - "entities are attached to a simulation".)
@@ -192,6 +239,7 @@ def _append_final(s):
 
 
 fn(WriteAheadLog, "append", args={"key": Str, "value": Any},
+   requires=[("attached-to-a-simulation", lambda s: s.self._clock is not None)],
    yields=Yields(
        at_yield=[("entry-logged-with-own-fresh-sequence-before-first-wait", _append_first_segment),
                  ("later-segments-leave-log-alone", _append_later_segment_frame),
@@ -246,9 +294,14 @@ fn(WriteAheadLog, "recover", ensures=[
     ("nothing-acknowledged-or-issued", lambda s: unchanged(s, s.self, "_synced_up_to_sequence", "_next_sequence")),
     ("counts-recovered", lambda s: s.self._entries_recovered == slen(s.self._entries))])
 
-fn(WriteAheadLog, "truncate", args={"up_to_sequence": Int}, ensures=[
+fn(WriteAheadLog, "truncate", args={"up_to_sequence": Int}, modifies=["_entries"],
+   # never drop an entry whose data is only in a memtable (DESIGN 3-C15): obligation at every call site
+   requires=[("bound-only-covers-flushed-entries", lambda s: s.up_to_sequence <= s.self.g_flushed_upto)],
+   ensures=[
     # exactly the entries above the bound stay
     *kept_clauses(lambda s: (lambda q, b=num(s.up_to_sequence): q > b)),
+    ("still-strictly-increasing", lambda s: seqs_increasing(s.self._entries)),
+    ("still-only-issued-sequences", lambda s: seqs_between(s.self._entries, 1, s.self._next_sequence)),
     ("nothing-acknowledged-or-issued", lambda s: unchanged(s, s.self, "_synced_up_to_sequence", "_next_sequence"))])
 
 fn(WriteAheadLog, "crash", ensures=[
@@ -433,53 +486,66 @@ def _lemma_last_step():
 lemma("last-is-latest-entry-for-key", _lemma_last_step)
 
 
-def _increasing(sq):
+# The two lemmas below restate the proved contracts over an index-based model of the logs (length + entry at
+# index; the existential "is an entry of" is skolemised into an index function), which keeps the solver out of
+# the sequence theory.
+ELOG = z3.ArraySort(z3.IntSort(), WE.sort())
+
+
+def _ainr(n, i):
+    return z3.And(0 <= i, i < n)
+
+
+def _a_increasing(a, n):
     i, j = z3.Int("inc_i"), z3.Int("inc_j")
-    return z3.ForAll([i, j], z3.Implies(z3.And(0 <= i, i < j, j < z3.Length(sq)), e_seq(sq[i]) < e_seq(sq[j])))
+    return z3.ForAll([i, j], z3.Implies(z3.And(0 <= i, i < j, j < n), e_seq(a[i]) < e_seq(a[j])))
 
 
-def _crash_contract(o, n, S):
+def _crash_contract(o, lo, n, ln, S, tag=""):
     """WriteAheadLog.crash as proved above: n holds exactly the entries of o with seq <= S, still increasing"""
     i, j = z3.Int("cc_i"), z3.Int("cc_j")
-    only = z3.ForAll([j], z3.Implies(_inr(n, j), z3.And(
-        z3.Exists([i], z3.And(_inr(o, i), o[i] == n[j])), e_seq(n[j]) <= S)))
-    every = z3.ForAll([i], z3.Implies(z3.And(_inr(o, i), e_seq(o[i]) <= S), z3.Exists([j], z3.And(_inr(n, j), n[j] == o[i]))))
-    return z3.And(only, every, _increasing(n))
+    src = z3.Function("cc_src" + tag, z3.IntSort(), z3.IntSort())      # where new entry j sits in o
+    dst = z3.Function("cc_dst" + tag, z3.IntSort(), z3.IntSort())      # where old synced entry i sits in n
+    only = z3.ForAll([j], z3.Implies(_ainr(ln, j), z3.And(_ainr(lo, src(j)), o[src(j)] == n[j], e_seq(n[j]) <= S)))
+    every = z3.ForAll([i], z3.Implies(z3.And(_ainr(lo, i), e_seq(o[i]) <= S), z3.And(_ainr(ln, dst(i)), n[dst(i)] == o[i])))
+    return z3.And(ln >= 0, lo >= 0, only, every, _a_increasing(n, ln))
 
 
-def _latest_synced(o, S, k, a):
+def _latest_synced(o, lo, S, k, a):
     """o[a] is the latest write of key k whose sync had completed"""
     b = z3.Int("ls_b")
-    return z3.And(_inr(o, a), e_key(o[a]) == k, e_seq(o[a]) <= S,
-                  z3.ForAll([b], z3.Implies(z3.And(_inr(o, b), e_key(o[b]) == k, e_seq(o[b]) <= S), e_seq(o[b]) <= e_seq(o[a]))))
+    return z3.And(_ainr(lo, a), e_key(o[a]) == k, e_seq(o[a]) <= S,
+                  z3.ForAll([b], z3.Implies(z3.And(_ainr(lo, b), e_key(o[b]) == k, e_seq(o[b]) <= S), e_seq(o[b]) <= e_seq(o[a]))))
 
 
-def _recovered(n, k, has, val):
-    """LSMTree.crash (empty memtable) then recover_from_crash (replay) as proved above, at key k"""
-    L = LAST(n, k, z3.Length(n))
-    return z3.And(has == (L >= 0), z3.Implies(L >= 0, val == e_val(n[L])))
+def _a_last_char(a, n, k, L):
+    j = z3.Int("lc_j")
+    return z3.Or(
+        z3.And(L == -1, z3.ForAll([j], z3.Implies(_ainr(n, j), e_key(a[j]) != k))),
+        z3.And(0 <= L, L < n, e_key(a[L]) == k, z3.ForAll([j], z3.Implies(z3.And(L < j, j < n), e_key(a[j]) != k))))
 
 
 def _lemma_durable_survives():
-    o, n, S, k = _L_vars()
+    o, n = z3.Const("lo_a", ELOG), z3.Const("ln_a", ELOG)
+    lo, ln, S, k, L = z3.Int("lo_n"), z3.Int("ln_n"), z3.Int("lS"), z3.String("lk"), z3.Int("lL")
     has, val = z3.Bool("l_has"), z3.Const("l_val", Any.sort())
-    assume(_increasing(o))
-    assume(_crash_contract(o, n, S))
-    assume(_last_char(n, k, z3.Length(n)))
-    assume(_recovered(n, k, has, val))
+    assume(_a_increasing(o, lo))                       # class invariant of the log before the crash
+    assume(_crash_contract(o, lo, n, ln, S))           # WriteAheadLog.crash / LSMTree.crash
+    assume(_a_last_char(n, ln, k, L))                  # L = LAST(n, k, len n)  (lemma last-is-latest-entry-for-key)
+    assume(z3.And(has == (L >= 0), z3.Implies(L >= 0, val == e_val(n[L]))))    # crash (empty memtable); recover (replay)
     a = z3.Int("l_a")
     # (1) a write whose sync had completed is readable with the latest durable value of its key
     oblige("acknowledged-write-readable-with-latest-durable-value",
-           z3.Implies(_latest_synced(o, S, k, a), z3.And(has, val == e_val(o[a]))))
+           z3.Implies(_latest_synced(o, lo, S, k, a), z3.And(has, val == e_val(o[a]))))
     # (2) whatever is recovered for a key is the latest synced write of that key: nothing invented, no
     #     overwritten (older) value resurrected, nothing unsynced
-    w = z3.Int("l_w")
+    src = z3.Function("cc_src", z3.IntSort(), z3.IntSort())
     oblige("recovered-value-is-the-latest-synced-write",
-           z3.Implies(has, z3.Exists([w], z3.And(_latest_synced(o, S, k, w), val == e_val(o[w])))))
+           z3.Implies(has, z3.And(_latest_synced(o, lo, S, k, src(L)), val == e_val(o[src(L)]))))
     # (3) a key without any synced write is not in the recovered memtable
     b = z3.Int("l_b")
     oblige("no-synced-write-no-entry",
-           z3.Implies(z3.ForAll([b], z3.Implies(z3.And(_inr(o, b), e_key(o[b]) == k), e_seq(o[b]) > S)), z3.Not(has)))
+           z3.Implies(z3.ForAll([b], z3.Implies(z3.And(_ainr(lo, b), e_key(o[b]) == k), e_seq(o[b]) > S)), z3.Not(has)))
 
 
 lemma("durable-writes-survive-crash-and-recovery", _lemma_durable_survives)
@@ -501,14 +567,258 @@ def _lemma_recover_idempotent():
     assume(rep(h1, v1, h2, v2))
     oblige("recovering-twice-equals-recovering-once", z3.And(h2[k] == h1[k], z3.Implies(h1[k], v2[k] == v1[k])))
     # crash twice == crash once: a log that holds only synced entries loses nothing in a second crash
-    o, n2, S, _ = _L_vars()
-    n3 = z3.Const("ln3", WLOG.sort())
-    assume(_crash_contract(o, n2, S))
-    assume(_crash_contract(n2, n3, S))
-    i, j = z3.Int("ci_i"), z3.Int("ci_j")
+    o, n2, n3 = z3.Const("lo_a", ELOG), z3.Const("ln_a", ELOG), z3.Const("ln3_a", ELOG)
+    lo, l2, l3, S = z3.Int("lo_n"), z3.Int("ln_n"), z3.Int("ln3_n"), z3.Int("lS")
+    assume(_crash_contract(o, lo, n2, l2, S, "1"))
+    assume(_crash_contract(n2, l2, n3, l3, S, "2"))
     sk = z3.Int("ci_sk")
+    dst2 = z3.Function("cc_dst2", z3.IntSort(), z3.IntSort())
     oblige("crashing-twice-loses-nothing-more",
-           z3.Implies(_inr(n2, sk), z3.Exists([j], z3.And(_inr(n3, j), n3[j] == n2[sk]))))
+           z3.Implies(_ainr(l2, sk), z3.And(_ainr(l3, dst2(sk)), n3[dst2(sk)] == n2[sk])))
 
 
 lemma("recovery-is-idempotent", _lemma_recover_idempotent)
+
+
+# ============================================================================ C. write path and flush
+cls(WriteAheadLog, inv=[("flushed-mark-is-an-issued-sequence", lambda o: o.g_flushed_upto < o._next_sequence)])
+cls(SSTable, fields={"_size_bytes": Int})
+INFLIGHT = Set(Int)
+
+
+def _inflight_inv(o):
+    wal = o._wal
+    if wal is None:
+        return True
+    nxt, bound, infl = wal._next_sequence, o.g_installed_bound, o.g_inflight      # read once, outside the quantifier
+    return forall(Int, lambda q: implies(contains(infl, q), (q < nxt) & (q > bound)), "fq")
+
+
+cls(LSMTree, ghost={"g_inflight": INFLIGHT, "g_installed_bound": Int},
+    # (that level 0 exists - max_levels >= 1 - is a precondition/rely of the flush functions only: any constraint
+    #  on the nested list `_levels` makes z3's sequence theory answer `unknown` for satisfiable queries)
+    inv=[("installed-bound-is-an-issued-sequence", lambda o: True if o._wal is None else o.g_installed_bound < o._wal._next_sequence),
+         ("flushed-mark-below-installed-bound", lambda o: True if o._wal is None else o._wal.g_flushed_upto <= o.g_installed_bound),
+         ("in-flight-sequences-are-issued-and-not-installed", lambda o: _inflight_inv(o))],
+    guarantee=[("installed-bound-never-goes-back", lambda old, new: new.g_installed_bound >= old.g_installed_bound)])
+
+
+def _c15_begin(lsm):
+    """ghost: the log append about to start takes the next sequence number; its write is in flight"""
+    lsm.g_inflight.add(lsm._wal._next_sequence)
+
+
+def _c15_applied(lsm):
+    """ghost: the write whose append just returned g_ret is being applied to the active memtable"""
+    lsm.g_inflight.discard(lsm._wal.g_ret)
+
+
+def _c15_seal_bound(lsm):
+    """ghost: b = min(g_inflight + {next_sequence}) - 1: every issued sequence <= b has been applied to the memtable
+    being sealed or to an earlier one"""
+    wal = lsm._wal
+    if wal is None:
+        return lsm.g_installed_bound
+    b = Int.fresh("seal_bound")
+    infl = lsm.g_inflight
+    assume((b < wal._next_sequence) & (b >= lsm.g_installed_bound))
+    assume(forall(Int, lambda q: implies(contains(infl, q), b < q), "sq"))
+    assume((b + 1 == wal._next_sequence) | contains(infl, b + 1))
+    return b
+
+
+def _c15_installed(lsm, sealed):
+    """ghost: the SSTable of a memtable sealed at bound `sealed` is installed; when no sealed memtable is
+    still waiting, every write up to the highest installed bound is on disk"""
+    lsm.g_installed_bound = ite(sealed >= lsm.g_installed_bound, sealed, lsm.g_installed_bound)
+    wal = lsm._wal
+    if wal is not None and slen(lsm._immutable_memtables) == 0:
+        wal.g_flushed_upto = ite(lsm.g_installed_bound >= wal.g_flushed_upto, lsm.g_installed_bound, wal.g_flushed_upto)
+
+
+_lsm_mod._c15_begin = _c15_begin
+_lsm_mod._c15_seal_bound = _c15_seal_bound
+_lsm_mod._c15_applied = _c15_applied
+_lsm_mod._c15_installed = _c15_installed
+
+# ---- assumed contracts of the callees outside this property (C14 owns the map behaviour)
+stub_of(Memtable, "flush", returns=Ref(SSTable), modifies=["_data", "_sequence", "_total_flushes"],
+        ensures=[lambda s: d_empty(s.self._data)])
+stub_of(SSTable, "key_count", returns=Int, modifies=[], ensures=[lambda s: s.result >= 0])
+stub_of(SSTable, "size_bytes", returns=Int, modifies=[], ensures=[lambda s: s.result >= 0])
+stub_of(CompactionStrategy, "should_compact", args={"levels": Seq(Seq(Ref(SSTable)))}, returns=Bool, modifies=[], ensures=[])
+COMPACT = stub_of(LSMTree, "_compact", modifies=["_levels", "_total_compactions", "_sstable_bytes_written"], ensures=[])
+COMPACT.returns_none_ok = True
+COMPACT.stub_yield = lambda s: s.self._sstable_write_latency
+COMPACT_S = stub_of(LSMTree, "_compact_sync", modifies=["_levels", "_total_compactions", "_sstable_bytes_written"], ensures=[])
+FLUSH_USES = [(Memtable, "flush"), (SSTable, "key_count"), (SSTable, "size_bytes"), (CompactionStrategy, "should_compact"),
+              (WriteAheadLog, "truncate")]
+
+
+def _sealed_still_waiting(s, b, y):
+    """rely: only the flush that sealed a memtable takes it off the immutable list"""
+    return mk_bool(z3.IndexOf(s.self._immutable_memtables.term, z3.Unit(s.old(s.self)._memtable._ref), 0) >= 0)
+
+
+def _inflight_only_gains_fresh(s, b, y):
+    """rely: a sequence number enters the in-flight set only when it is issued (LSMTree.put/delete take the log's
+    next sequence number), so whatever is in flight after a wait was in flight before it or did not exist yet"""
+    wal = s.self._wal
+    if wal is None:
+        return True
+    before, nxt0, now = b.pre(s.self).g_inflight, b.pre(wal)._next_sequence, s.self.g_inflight
+    return forall(Int, lambda q: implies(contains(now, q), contains(before, q) | (q >= nxt0)), "rq")
+
+
+LSM_STABLE = [("Entity", "_clock"), ("Entity", "name")]
+
+HAS_L0 = ("level-0-exists (max_levels >= 1)", lambda s: slen(s.self._levels) >= 1)
+
+fn(LSMTree, "_flush_memtable", uses=FLUSH_USES + [(LSMTree, "_compact")], requires=[HAS_L0],
+   focus=lambda s: [s.self._wal, s.self._memtable],
+   yields=Yields(
+       at_yield=[("log-not-truncated-before-the-sstable-is-installed", lambda s, y: True if s.self._wal is None else
+                  (first_segment(s) and same_log(s.self._wal, s.old(s.self._wal))) or not first_segment(s))],
+       stable=LSM_STABLE, rely=[_sealed_still_waiting, lambda s, b, y: slen(s.self._levels) >= 1, _inflight_only_gains_fresh],
+       max_yields=4),
+   ensures=[("log-only-loses-flushed-entries", lambda s: True if s.self._wal is None else kept_all(
+       s.self._wal, s.pre(s.self._wal), lambda q, b=num(s.self._wal.g_flushed_upto): q > b))])
+
+fn(LSMTree, "_flush_memtable_sync", uses=FLUSH_USES + [(LSMTree, "_compact_sync")], requires=[HAS_L0],
+   focus=lambda s: [s.self._wal, s.self._memtable],
+   ensures=[("log-only-loses-flushed-entries", lambda s: True if s.self._wal is None else kept_all(
+       s.self._wal, s.old(s.self._wal), lambda q, b=num(s.self._wal.g_flushed_upto): q > b))])
+
+
+# ---- put / delete / put_sync: log first, memtable second; acknowledged under sync-every-write ==> durable
+def _wal_or_dummy(s):
+    return s.self._wal if s.self._wal is not None else new_object(WriteAheadLog)
+
+
+# what a flush may write (its last atomic segment; the wait before it is a yield of the caller's driver, where
+# everything not stable is havoc'd anyway): the tree's memtable/level bookkeeping, and the log (truncation)
+FLUSH_MODS = ["_memtable", "_immutable_memtables", "_levels", "_sstable_bytes_written", "_total_memtable_flushes",
+              "_total_compactions", "g_installed_bound",
+              (_wal_or_dummy, "_entries"), (_wal_or_dummy, "g_flushed_upto")]
+
+
+def _flush_keeps_log_invariants(s):
+    """proved for the real functions above (class invariants / guarantees of the log at their exit)"""
+    wal = s.self._wal
+    tree = (s.self.g_installed_bound >= s.old(s.self).g_installed_bound)
+    if wal is None:
+        return tree
+    return tree & seqs_increasing(wal._entries) & seqs_between(wal._entries, 1, wal._next_sequence) \
+        & (wal.g_flushed_upto >= s.old(wal).g_flushed_upto) & (wal.g_flushed_upto < wal._next_sequence) \
+        & (wal.g_flushed_upto <= s.self.g_installed_bound) & (s.self.g_installed_bound < wal._next_sequence) \
+        & _inflight_inv(s.self)
+
+
+FLUSH = stub_of(LSMTree, "_flush_memtable", modifies=FLUSH_MODS, ensures=[_flush_keeps_log_invariants])
+FLUSH.returns_none_ok = True
+FLUSH.stub_yield = lambda s: s.self._sstable_write_latency
+FLUSH_S = stub_of(LSMTree, "_flush_memtable_sync", modifies=FLUSH_MODS, ensures=[_flush_keeps_log_invariants])
+
+
+def _wal0(s):
+    """the log in the entry state"""
+    return s.old(s.old(s.self)._wal)
+
+
+def _logged_before_applied(s, y):
+    """write-ahead: while the log append is still waiting, the memtable has not seen the write; and the entry
+    (own fresh sequence number, key, value) is in the log from the first wait on"""
+    wal = s.self._wal
+    if wal is None or not first_segment(s):
+        return True
+    return _appended(s, wal, _wal0(s), _wal0(s)._next_sequence) & unchanged(s, s.old(s.self)._memtable, "_data")
+
+
+def _acked_is_durable(s):
+    """under sync-every-write the write is acknowledged (put returns) only after its sync completed"""
+    wal = s.self._wal
+    if wal is None or not isinstance(wal._sync_policy, SyncEveryWrite):
+        return True
+    return wal._synced_up_to_sequence >= _wal0(s)._next_sequence
+
+
+def _no_longer_in_flight(s):
+    """in the last segment of the log append the write left the in-flight set (it is in the active memtable)"""
+    wal = s.self._wal
+    if wal is None:
+        return True
+    return True if not first_segment(s) else Not(contains(s.self.g_inflight, _wal0(s)._next_sequence))
+
+
+def _in_flight_while_logging(s, y):
+    wal = s.self._wal
+    if wal is None or not first_segment(s):
+        return True
+    return contains(s.self.g_inflight, _wal0(s)._next_sequence)
+
+
+def _put_rely(s, b, y):
+    """(1) only the process that put a sequence number in flight takes it out; (2) in-order SYNC completion (see
+    PROPERTY["assumptions"]): while this write's log append is still waiting, no later append has completed a sync"""
+    wal = s.self._wal
+    if wal is None:
+        return True
+    mine = _wal0(s)._next_sequence
+    return implies(contains(b.pre(s.self).g_inflight, mine),
+                   contains(s.self.g_inflight, mine) & (wal._synced_up_to_sequence <= mine))
+
+
+def _log_guarantees(s, b, y):
+    """the proved two-state guarantees of WriteAheadLog, across a wait"""
+    wal = s.self._wal
+    if wal is None:
+        return True
+    w0 = b.pre(wal)
+    return (wal._synced_up_to_sequence >= w0._synced_up_to_sequence) & (wal._next_sequence >= w0._next_sequence) \
+        & (wal.g_flushed_upto >= w0.g_flushed_upto) & (wal._synced_up_to_sequence < wal._next_sequence)
+
+
+for _name, _args in (("put", {"key": Str, "value": Any}), ("delete", {"key": Str})):
+    fn(LSMTree, _name, args=_args, uses=[(LSMTree, "_flush_memtable")],
+       # attached to a simulation (LSMTree.set_clock hands the clock to the log as well)
+       requires=[lambda s: s.self._clock is not None,
+                 lambda s: True if s.self._wal is None else s.self._wal._clock is not None],
+       # the log is not a focus object here (its sequence invariants are the business of WriteAheadLog.append,
+       # proved above, and would only burden every feasibility check); its two-state guarantees are restated
+       # as rely clauses
+       focus=lambda s: [s.self._memtable],
+       yields=Yields(at_yield=([("logged-before-applied", _logged_before_applied)] if _name == "put" else [])
+                     + [("in-flight-while-the-log-append-waits", _in_flight_while_logging)],
+                     stable=LSM_STABLE,
+                     rely=[lambda s, b, y: ns(s.self._clock._current_time) >= ns(b.pre(s.self._clock)._current_time),
+                           _log_guarantees, _put_rely], max_yields=6),
+       ensures=[("acknowledged-under-sync-every-write-is-durable", _acked_is_durable),
+                ("applied-write-left-the-in-flight-set", _no_longer_in_flight)])
+
+fn(LSMTree, "put_sync", args={"key": Str, "value": Any}, uses=[(LSMTree, "_flush_memtable_sync")],
+   focus=lambda s: [s.self._wal, s.self._memtable],
+   ensures=[("applied-write-left-the-in-flight-set", lambda s: True if s.self._wal is None else
+                Not(contains(s.self.g_inflight, _wal0(s)._next_sequence))),
+            ("sync-path-acknowledges-nothing", lambda s: True if s.self._wal is None else
+                unchanged(s, s.self._wal, "_synced_up_to_sequence"))])
+
+
+# ============================================================================ bounded native stand-ins
+def _native_in_order(seed, tier):
+    """Native (real scheduler, unmodified CPython, own process) check of the in-order SYNC completion assumption used
+    as a rely above: random put/delete workloads with 1-4 concurrent writers, all three sync policies, small
+    memtables; synced_up_to as observed after every append must never decrease.  It also records that appends do
+    NOT return in sequence order (informational - nothing assumes it).  Bounded: labelled as such."""
+    import json
+    import subprocess
+    from pyvc.ctx import REPO
+    r = subprocess.run(["/venv/bin/python", "/verif/triage/c15_inorder.py", str(seed), tier], capture_output=True, text=True,
+                       env={"PYTHONPATH": REPO, "PATH": "/usr/bin:/bin"}, timeout=600)
+    if r.returncode != 0:
+        raise RuntimeError(r.stderr[-800:])
+    return json.loads(r.stdout.strip().splitlines()[-1])
+
+
+PROPERTY["bounded"] = [{"name": "in-order-completion-native",
+                        "bound": "60 (quick) / 600 (thorough) random workloads: 1-4 concurrent writers x <=8 put/delete, 3 sync "
+                                 "policies, memtable 2-5, real scheduler, native CPython", "fn": _native_in_order}]
